@@ -2137,6 +2137,18 @@ def g_as_tensor(rng, tier):
     yield C('attr', 'epsilon', [Sub('ext', 'torch.finfo', [DT(F64)])])
 
 
+@gen('conj_physical/is_conj')
+@finite
+def g_conj_physical(rng, tier):
+    for dt in (C128, F64):
+        yield C('method', 'is_conj', [A], A=([2, 3], dt))
+        yield C('method', 'is_conj', [mt('conj', A)], A=([2, 3], dt))
+        yield C('method', 'conj_physical', [A], A=([2, 3], dt))
+        yield C('method', 'conj_physical', [mt('conj', A)], A=([2, 3], dt))
+        yield C('method', 'is_conj', [mt('conj_physical', mt('conj', A))], A=([3], dt))
+        yield C('method', 'resolve_conj', [mt('conj_physical', mt('conj', A))], A=([3], dt))
+
+
 @gen('numpy.prod')
 @finite
 def g_np_prod(rng, tier):
